@@ -589,7 +589,9 @@ def spawn_layer_in_subprocess(result, script_parts, options, features,
         # Now we should be able to finish reading stderr.
         stderr_thread.join()
         errlines = stderr_buf[0].splitlines()
-        erriter = iter(errlines)
+        # Keep the line ends: a name the child did not terminate was cut
+        # short (the child died while writing its report).
+        erriter = iter(stderr_buf[0].splitlines(True))
         nfail = nerr = 0
         for line in erriter:
             try:
@@ -617,20 +619,28 @@ def spawn_layer_in_subprocess(result, script_parts, options, features,
                                      for line in errlines[-10:]))
             output.error_with_banner(errmsg)
 
+        def next_name():
+            # In python 3 this returns bytes, so we decode it.
+            line = next(erriter)
+            if not line.endswith(b'\n'):
+                raise EOFError("incomplete report from subprocess")
+            return line.strip().decode()
+
         while nfail > 0:
             nfail -= 1
-            # Doing erriter.next().strip() confuses the 2to3 fixer, so
-            # we need to do it on a separate line. Also, in python 3 this
-            # returns bytes, so we decode it.
-            next_fail = next(erriter)
-            failures.append((next_fail.strip().decode(), None))
+            failures.append((next_name(), None))
         while nerr > 0:
             nerr -= 1
-            # Doing erriter.next().strip() confuses the 2to3 fixer, so
-            # we need to do it on a separate line. Also, in python 3 this
-            # returns bytes, so we decode it.
-            next_err = next(erriter)
-            errors.append((next_err.strip().decode(), None))
+            errors.append((next_name(), None))
+
+    except Exception:
+        # The subprocess could not be started, or its report ended before
+        # all announced names arrived.  This code runs in a thread, so
+        # nobody would notice the exception: record the layer as broken.
+        errors.append(("subprocess for %s" % layer_name, None))
+        output.error_with_banner(
+            "Could not run subprocess for %s or read its report:\n%s"
+            % (layer_name, traceback.format_exc()))
 
     finally:
         result.done = True
